@@ -18,8 +18,8 @@ import math
 import numpy as np
 
 from . import core
-from .catalogue import in_a, in_b, out_ts, out_y, out_z
-from .edl import AND, C, OR, P, block, build_engine, diff_obs, engine, feq, observe, rule
+from .catalogue import in_a, in_b, out_ts, out_tsk, out_y, out_z
+from .edl import AND, C, OR, P, X, activation, block, build_engine, diff_obs, engine, feq, observe, out, rule, term
 from .tlc import MachineryError, write_cfg
 from .xreal import NAN, Q, to_float
 
@@ -44,6 +44,46 @@ def engines():
 
 
 ROWS = [[Q(1, 4), Q(3, 4)], [Q(3, 4), Q(1, 4)], [list(NAN), Q(1, 2)]]
+
+Z3 = [0, 0, 1]
+
+
+def ed(kind, a=1, b=1, c=1, x=None, ox=None, s="", os="", n=0, on=0):
+    return {"kind": kind, "a": a, "b": b, "c": c, "x": x or Z3, "ox": ox or Z3, "s": s, "os": os, "n": n, "on": on}
+
+
+def edit_engines():
+    """engines with the edits of their configuration that a user may make between two process() calls (1-based indices)"""
+    es = engines()
+    mam, chained, sug, lock = es
+    mam["edits"] = [ed("weight", 1, 2, x=X("1/4"), ox=X("1/2")), ed("implication", 1, s="AlgebraicProduct", os="Minimum"), ed("conjunction", 1, s="AlgebraicProduct", os="Minimum"),
+                    ed("aggregation", 1, s="BoundedSum", os="Maximum"), ed("defuzz-res", 1, n=4, on=8), ed("defuzz-cls", 1, s="MeanOfMaximum", os="Centroid"),
+                    ed("oterm-p", 1, 1, 2, x=X("3/8"), ox=X("1/4")), ed("iterm-p", 1, 1, 2, x=X("1/8"), ox=X("1/4")), ed("in-enabled", 2), ed("out-enabled", 1), ed("block-enabled", 1),
+                    ed("lock-previous", 1), ed("default", 1, x=X("1/8"), ox=list(NAN))]
+    chained["edits"] = [ed("block-enabled", 1), ed("block-enabled", 2), ed("oterm-p", 1, 2, 2, x=X("5/8"), ox=X("1/2")), ed("aggregation", 1, s="AlgebraicSum", os="Maximum"), ed("out-enabled", 1)]
+    sug["edits"] = [ed("oterm-p", 1, 4, 1, x=X("-1"), ox=X("1/2")), ed("oterm-p", 1, 4, 3, x=X("1"), ox=X("1/8")), ed("oterm-p", 1, 1, 1, x=X("1"), ox=X("-1/2")),
+                    ed("defuzz-cls", 1, s="WeightedSum", os="WeightedAverage"), ed("aggregation", 1, s="Maximum", os="none"), ed("weight", 1, 3, x=X("1"), ox=X("1/2"))]
+    lock["edits"] = [ed("lock-previous", 1), ed("default", 1, x=list(NAN), ox=X("1/8")), ed("oterm-p", 1, 1, 3, x=X("3/4"), ox=X("1/2"))]
+    # the kind of the activated terms decides how a weighted defuzzifier left on Automatic reads them: one rule concludes a
+    # Constant, the other a Ramp, and the edit exchanges which of the two is enabled
+    w = out("w", 0, 2, [term("c", "Constant", "3/2"), term("up", "Ramp", 0, 2), term("dn", "Ramp", 2, 0)], defuzzifier="WeightedAverage", aggregation="none")
+    kinds = engine("weighted-kinds", [in_a(), in_b()], [w],
+                   [block("rb", [rule(P("a", "lo"), [C("w", "c")]), rule(P("a", "lo"), [C("w", "up")], enabled=False), rule(P("b", "hi"), [C("w", "dn")], enabled=False, weight="1/2")],
+                          implication="none")])
+    kinds["edits"] = [ed("swap-enabled", 1, 1, 2), ed("swap-enabled", 1, 1, 3), ed("defuzz-type", 1, s="TakagiSugeno", os="Automatic"), ed("defuzz-cls", 1, s="WeightedSum", os="WeightedAverage")]
+    es.append(kinds)
+    for cls, kw, edits in [("Threshold", dict(threshold="1/4", comparator=">"), [ed("threshold", 1, x=X("5/8"), ox=X("1/4")), ed("comparator", 1, s="<=", os=">"), ed("comparator", 1, s="==", os=">")]),
+                           ("First", dict(rules=1, threshold="1/4"), [ed("act-rules", 1, n=2, on=1), ed("threshold", 1, x=X("5/8"), ox=X("1/4"))]),
+                           ("Highest", dict(rules=1), [ed("act-rules", 1, n=2, on=1), ed("weight", 1, 1, x=X("1/4"), ox=X("1"))]),
+                           ("Last", dict(rules=2, threshold=0), [ed("act-rules", 1, n=1, on=2)]), ("Lowest", dict(rules=1), [ed("act-rules", 1, n=3, on=1)])]:
+        e = engine(f"activation-{cls}", [in_a(), in_b()], [out_y()],
+                   [block("rb", [rule(P("a", "lo"), [C("y", "s")]), rule(P("b", "hi"), [C("y", "m")], weight="3/4"), rule(P("a", "hi"), [C("y", "l")]), rule(P("b", "mid"), [C("y", "s")], weight="1/2")],
+                          act=activation(cls, **kw))])
+        e["edits"] = edits
+        es.append(e)
+    for e in es:
+        e["coarse"] = True
+    return es
 
 
 def identity_scan(fl, es):
@@ -76,6 +116,81 @@ def identity_scan(fl, es):
     return None
 
 
+def apply_edit(fl, e, d, E):
+    """the same edit on the real objects, by plain attribute assignment (what a user does between two process() calls)"""
+    from .fll import ATTRS
+
+    k, a, b, c = d["kind"], d["a"] - 1, d["b"] - 1, d["c"] - 1
+
+    def flip(cur, new, orig, eq=lambda p, q: p == q):
+        return orig if eq(cur, new) else new
+
+    def fnum(p, q):
+        return (math.isnan(p) and math.isnan(q)) or p == q
+    x, ox = to_float(d["x"]), to_float(d["ox"])
+    if k == "weight":
+        r = e.rule_blocks[a].rules[b]
+        r.weight = flip(float(r.weight), x, ox, fnum)
+    elif k in ("oterm-p", "iterm-p"):
+        v = (e.output_variables if k == "oterm-p" else e.input_variables)[a]
+        t = v.terms[b]
+        cls = type(t).__name__
+        if cls == "Linear":
+            new = list(t.coefficients)
+            new[c] = flip(float(new[c]), x, ox, fnum)
+            if c % 2:
+                t.coefficients[c] = new[c]          # in place
+            else:
+                t.coefficients = new                # a new list
+        elif cls == "Constant":
+            t.value = flip(float(t.value), x, ox, fnum)
+        else:
+            setattr(t, ATTRS[cls][c], flip(float(getattr(t, ATTRS[cls][c])), x, ox, fnum))
+    elif k == "threshold":
+        act = e.rule_blocks[a].activation
+        act.threshold = flip(float(act.threshold), x, ox, fnum)
+    elif k == "comparator":
+        act = e.rule_blocks[a].activation
+        act.comparator = fl.Threshold.Comparator(flip(act.comparator.value, d["s"], d["os"]))
+    elif k == "act-rules":
+        act = e.rule_blocks[a].activation
+        act.rules = flip(int(act.rules), d["n"], d["on"])
+    elif k in ("implication", "conjunction"):
+        cur = getattr(e.rule_blocks[a], k)
+        name = flip("none" if cur is None else type(cur).__name__, d["s"], d["os"])
+        setattr(e.rule_blocks[a], k, None if name == "none" else getattr(fl, name)())
+    elif k == "aggregation":
+        cur = e.output_variables[a].aggregation
+        name = flip("none" if cur is None else type(cur).__name__, d["s"], d["os"])
+        e.output_variables[a].aggregation = None if name == "none" else getattr(fl, name)()
+    elif k == "defuzz-type":
+        dz = e.output_variables[a].defuzzifier
+        dz.type = fl.WeightedDefuzzifier.Type[flip(dz.type.name, d["s"], d["os"])]
+    elif k == "defuzz-res":
+        dz = e.output_variables[a].defuzzifier
+        dz.resolution = flip(int(dz.resolution), d["n"], d["on"])
+    elif k == "defuzz-cls":
+        dz = e.output_variables[a].defuzzifier
+        name = flip(type(dz).__name__, d["s"], d["os"])
+        e.output_variables[a].defuzzifier = getattr(fl, name)(dz.resolution) if hasattr(dz, "resolution") else getattr(fl, name)(dz.type)
+    elif k == "out-enabled":
+        e.output_variables[a].enabled = not e.output_variables[a].enabled
+    elif k == "in-enabled":
+        e.input_variables[a].enabled = not e.input_variables[a].enabled
+    elif k == "block-enabled":
+        e.rule_blocks[a].enabled = not e.rule_blocks[a].enabled
+    elif k == "swap-enabled":
+        for i in (b, c):
+            e.rule_blocks[a].rules[i].enabled = not e.rule_blocks[a].rules[i].enabled
+    elif k == "lock-previous":
+        e.output_variables[a].lock_previous = not e.output_variables[a].lock_previous
+    elif k == "default":
+        v = e.output_variables[a]
+        v.default_value = flip(float(v.default_value), x, ox, fnum)
+    else:
+        raise MachineryError(f"unknown edit {k}")
+
+
 def play(fl, case, beh):
     insts = [build_engine(fl, case["engine"])]
     cur = 0
@@ -103,6 +218,8 @@ def play(fl, case, beh):
                 r.enabled = not r.enabled
             elif a == "unload":
                 e.rule_blocks[0].rules[0].unload()
+            elif a == "edit-k":
+                apply_edit(fl, e, case["engine"]["edits"][st["arg"] - 1], case["engine"])
             else:
                 raise MachineryError(a)
         except MachineryError:
@@ -126,11 +243,41 @@ def play(fl, case, beh):
     return None
 
 
+def edit_behaviours(ctx, steps, first_id=100):
+    """configuration edits after first use: TLC enumerates, per (engine, edit), every behaviour `set; then any of set / process /
+    restart / copy / edit` of `steps` actions; returns those with an edit and a process, and their cases"""
+    head = "SPECIFICATION Spec\nCONSTANTS MaxSteps = {n}\n  MaxInst = 2\n  Emit = TRUE\n  SkipClear = FALSE\n  EditMode = TRUE\n"
+    invs = "INVARIANT HistoryFree\nINVARIANT RestartIsFresh\nINVARIANT CopyIdentical\nPROPERTY Independent\n"
+    ecases = [{"id": first_id + i, "engine": E, "rows": ROWS[:2], "edits": E["edits"]} for i, E in enumerate(edit_engines())]
+    eruns = ctx.tlc_cases("MC_Lifecycle", write_cfg("MC_Lifecycle_edits", head.format(n=steps) + invs + "INVARIANT EmitInv\nCHECK_DEADLOCK FALSE\n"),
+                          ecases, label="life-edits", workers=16, timeout=3400)
+    behs = []
+    for r in eruns:
+        ctx.expect_holds(r, "MC_Lifecycle[edits]")
+        for beh in r.emitted:
+            if any(s["act"] == "edit-k" for s in beh["steps"]) and any(s["act"] == "process" for s in beh["steps"]):
+                behs.append(beh)
+    return behs, ecases
+
+
+def replay_behaviours(ctx, fl, behs, cases, prefix=""):
+    for bi, beh in enumerate(behs):
+        case = next(c for c in cases if c["id"] == beh["cid"])
+        ctx.count()
+        bad = play(fl, case, beh)
+        if bad:
+            k, d = bad
+            acts = [s["act"] for s in beh["steps"][:k + 1]]
+            ctx.violation(f"{prefix}{case['engine']['name']}/after-{acts[-1]}/{d.split(':')[0].split(' (')[0].split(' ')[0]}", {"engine": case["engine"]["name"], "steps": beh["steps"][:k + 1]},
+                          None, d, note=f"{' '.join(acts)}: {d}", step=k)
+        ctx.traces += 1
+
+
 def run(ctx: core.Ctx):
     fl = core.import_fuzzylite()
     cases = [{"id": i, "engine": E, "rows": ROWS} for i, E in enumerate(engines())]
     n = 4 if ctx.quick else 5
-    head = "SPECIFICATION Spec\nCONSTANTS MaxSteps = {n}\n  MaxInst = {m}\n  Emit = {e}\n  SkipClear = {s}\n"
+    head = "SPECIFICATION Spec\nCONSTANTS MaxSteps = {n}\n  MaxInst = {m}\n  Emit = {e}\n  SkipClear = {s}\n  EditMode = FALSE\n"
     invs = "INVARIANT HistoryFree\nINVARIANT RestartIsFresh\nINVARIANT CopyIdentical\nPROPERTY Independent\n"
     runs = ctx.tlc_cases("MC_Lifecycle", write_cfg("MC_Lifecycle", head.format(n=n, m=3, e="TRUE", s="FALSE") + invs + "INVARIANT EmitInv\nCHECK_DEADLOCK FALSE\n"),
                          cases, label="life", workers=16, timeout=3400)
@@ -145,8 +292,12 @@ def run(ctx: core.Ctx):
     ctx.extra.setdefault("canaries", []).append({"canary": "SkipClear", "violated": "HistoryFree"})
     if len(behs) < 1000:
         raise MachineryError(f"only {len(behs)} behaviours")
+    ebehs, ecases = edit_behaviours(ctx, n + 1)
+    behs += ebehs
+    cases = cases + ecases
+    ctx.extra["edit_behaviours"] = len(ebehs)
     for bi, beh in enumerate(behs):
-        case = cases[beh["cid"]]
+        case = next(c for c in cases if c["id"] == beh["cid"])
         ctx.count()
         bad = play(fl, case, beh)
         if bad:
